@@ -1032,3 +1032,181 @@ pub fn oracle_predict(init_fung: [i128; 2], init_nf: &[u64], ops: &[Op]) -> Opti
     let d = o.deltas(init_fung, init_nf);
     Some((None, Some(d), o))
 }
+
+// ------------------------------------------------------------------------------------------------
+// Deterministic "proof order" family: 3-4 live proofs on ONE container over the amount multisets
+// {a,a,b}, {a,b,b}, {a,b,c}, {a,a,a,b} (a<b<c), created in every order (equal amounts alternately by
+// a second create and by a clone), then one or two proofs dropped in every order (LIFO and
+// non-LIFO), then: a removal of exactly total-max, of total-max+1 step, of total-second_max, and a
+// new proof of the whole amount followed by dropping everything (final balance must be unchanged).
+// Containers: account vault (withdraw / burn / recall in rotation) and a bucket (split off the
+// worktop); plus the non-fungible analogue over overlapping id sets.
+// ------------------------------------------------------------------------------------------------
+fn permutations<T: Clone + PartialEq>(xs: &[T]) -> Vec<Vec<T>> {
+    if xs.len() <= 1 {
+        return vec![xs.to_vec()];
+    }
+    let mut out: Vec<Vec<T>> = Vec::new();
+    for i in 0..xs.len() {
+        let mut rest = xs.to_vec();
+        let x = rest.remove(i);
+        for mut p in permutations(&rest) {
+            p.insert(0, x.clone());
+            if !out.contains(&p) {
+                out.push(p);
+            }
+        }
+    }
+    out
+}
+/// all ordered selections of 1 or 2 distinct indices out of k
+fn drop_orders(k: usize) -> Vec<Vec<usize>> {
+    let mut v = Vec::new();
+    for i in 0..k {
+        v.push(vec![i]);
+    }
+    for i in 0..k {
+        for j in 0..k {
+            if i != j {
+                v.push(vec![i, j]);
+            }
+        }
+    }
+    v
+}
+
+pub fn proof_order_family(vault: bool, multisets: &[Vec<i128>]) -> Vec<(&'static str, Vec<Op>)> {
+    use Op::*;
+    let mut out: Vec<(&'static str, Vec<Op>)> = Vec::new();
+    let total: i128 = if vault { 1000 * UNIT } else { 10 * UNIT };
+    let scale: i128 = if vault { 100 * UNIT } else { UNIT };
+    let mut n = 0usize;
+    for ms in multisets {
+        for perm in permutations(ms) {
+            for drops in drop_orders(perm.len()) {
+                // create: proof i has amount perm[i] * scale and manifest name i
+                let mut pre: Vec<Op> = if vault { vec![] } else { vec![Withdraw(0, total), TakeFromWorktop(0, total)] };
+                for (i, a) in perm.iter().enumerate() {
+                    let earlier = perm[..i].iter().position(|x| x == a);
+                    match earlier {
+                        Some(e) if (n + i) % 2 == 1 => pre.push(CloneProof(e as u32)),
+                        _ => {
+                            if vault {
+                                pre.push(AcctProofAmount(0, a * scale));
+                                pre.push(PopAuthZone);
+                            } else {
+                                pre.push(BucketProofAmount(0, a * scale));
+                            }
+                        }
+                    }
+                }
+                for d in &drops {
+                    pre.push(DropProof(*d as u32));
+                }
+                let mut remaining: Vec<i128> = perm.iter().enumerate().filter(|(i, _)| !drops.contains(i)).map(|(_, a)| *a * scale).collect();
+                remaining.sort();
+                let max = *remaining.last().unwrap();
+                let second: i128 = remaining.iter().cloned().filter(|x| *x < max).max().unwrap_or(0);
+                let step = 1i128;
+                for (fi, x) in [total - max, total - max + step, total - second].iter().enumerate() {
+                    let mut ops = pre.clone();
+                    if vault {
+                        ops.push(match (n + fi) % 3 {
+                            0 => Withdraw(0, *x),
+                            1 => Recall(0, *x),
+                            _ => AcctBurn(0, *x),
+                        });
+                        ops.push(DropNamedProofs);
+                        ops.push(DepositBatch);
+                    } else {
+                        ops.push(ReturnToWorktop(0));
+                        ops.push(TakeFromWorktop(0, *x));
+                        ops.push(DropNamedProofs);
+                        ops.push(Deposit(1));
+                        ops.push(DepositBatch);
+                    }
+                    out.push((if vault { "ord_vault_removal" } else { "ord_bucket_removal" }, ops));
+                }
+                // a new proof in the perturbed state, then everything dropped: balances unchanged
+                let mut ops = pre.clone();
+                if vault {
+                    ops.push(AcctProofAmount(0, total));
+                    ops.push(PopAuthZone);
+                    ops.push(DropNamedProofs);
+                    ops.push(Withdraw(0, total));
+                    ops.push(DepositBatch);
+                } else {
+                    ops.push(BucketProofAmount(0, total));
+                    ops.push(DropNamedProofs);
+                    ops.push(Deposit(0));
+                }
+                out.push((if vault { "ord_vault_new_proof" } else { "ord_bucket_new_proof" }, ops));
+                n += 1;
+            }
+        }
+    }
+    out
+}
+
+/// non-fungible analogue: overlapping id sets, every creation order, every drop order of 1-2
+/// proofs, then a removal of one id that must be free and of one that must still be locked
+pub fn proof_order_family_nf() -> Vec<(&'static str, Vec<Op>)> {
+    use Op::*;
+    let a: Vec<u64> = vec![1, 2];
+    let b: Vec<u64> = vec![2, 3];
+    let c: Vec<u64> = vec![3, 4, 5];
+    let multisets: Vec<Vec<Vec<u64>>> = vec![vec![a.clone(), a.clone(), b.clone()], vec![a.clone(), b.clone(), b.clone()], vec![a.clone(), b.clone(), c.clone()]];
+    let mut out: Vec<(&'static str, Vec<Op>)> = Vec::new();
+    let mut n = 0usize;
+    for ms in &multisets {
+        for perm in permutations(ms) {
+            for drops in drop_orders(perm.len()) {
+                let mut pre: Vec<Op> = Vec::new();
+                for (i, ids) in perm.iter().enumerate() {
+                    let earlier = perm[..i].iter().position(|x| x == ids);
+                    match earlier {
+                        Some(e) if (n + i) % 2 == 1 => pre.push(CloneProof(e as u32)),
+                        _ => {
+                            pre.push(AcctProofNF(2, ids.clone()));
+                            pre.push(PopAuthZone);
+                        }
+                    }
+                }
+                for d in &drops {
+                    pre.push(DropProof(*d as u32));
+                }
+                let still: BTreeSet<u64> = perm.iter().enumerate().filter(|(i, _)| !drops.contains(i)).flat_map(|(_, ids)| ids.iter().cloned()).collect();
+                let freed: Vec<u64> = perm.iter().enumerate().filter(|(i, _)| drops.contains(i)).flat_map(|(_, ids)| ids.iter().cloned()).filter(|x| !still.contains(x)).collect();
+                let mut targets: Vec<Vec<u64>> = vec![if n % 2 == 0 { vec![*still.iter().next().unwrap()] } else { vec![8, *still.iter().last().unwrap()] }];
+                if let Some(f) = freed.first() {
+                    targets.push(vec![*f]);
+                } else {
+                    targets.push(vec![*still.iter().last().unwrap()]);
+                }
+                for (fi, ids) in targets.into_iter().enumerate() {
+                    let mut ops = pre.clone();
+                    ops.push(match (n + fi) % 3 {
+                        0 => WithdrawNF(2, ids),
+                        1 => RecallNF(2, ids),
+                        _ => AcctBurnNF(2, ids),
+                    });
+                    ops.push(DropNamedProofs);
+                    ops.push(DepositBatch);
+                    out.push(("ord_nf_removal", ops));
+                }
+                n += 1;
+            }
+        }
+    }
+    out
+}
+
+pub fn class_floors(report: &mut Report, bnd: &[(&'static str, Vec<Op>)]) {
+    let mut per_class: BTreeMap<&str, u64> = Default::default();
+    for (c, _) in bnd {
+        *per_class.entry(*c).or_insert(0) += 1;
+    }
+    for (c, n) in per_class {
+        report.floor(c, n);
+    }
+}
